@@ -170,6 +170,15 @@ func primitives2(r *vlib.Run) {
 	}
 }
 
+func baseAgrees2(base *subject2) func(p C2) bool {
+	base.init()
+	return func(p C2) bool {
+		want := base.ref.Eval(p).SD
+		got := base.sdf.SDF(p)
+		return fin(got) && math.Abs(got-want) <= relTol*math.Abs(want)+absTolK*(base.scale+g.MaxAbs2(p))
+	}
+}
+
 func colliderDerived2(r *vlib.Run) {
 	r.Section("collider2d", r.N(3000, 40000), vlib.SectionOpts{}, func(c *vlib.Case) {
 		rng := c.Rng
@@ -186,7 +195,7 @@ func colliderDerived2(r *vlib.Run) {
 		}
 		s := &subject2{
 			api: "model2d.ColliderToSDF[" + gn.name + "]", tag: "2d.ColliderToSDF." + gn.name,
-			sdf: model2d.ColliderToSDF(coll, iters), ref: base.ref, params: base.params, quiet: true,
+			sdf: model2d.ColliderToSDF(coll, iters), ref: base.ref, params: base.params, quiet: true, baseOK: baseAgrees2(base),
 		}
 		s.params["iterations"] = fmt.Sprint(iters)
 		res := math.Pow(2, -float64(eff))
@@ -241,12 +250,15 @@ func transformDerived2(r *vlib.Run) {
 		}
 		s := &subject2{
 			api: "model2d.TransformSDF[" + name + "]", tag: "2d.TransformSDF." + name,
-			sdf: field, ref: base.ref, params: params, mapQuery: t.Apply, distScale: k, quiet: true,
+			sdf: field, ref: base.ref, params: params, mapQuery: t.Apply, distScale: k, quiet: true, baseOK: baseAgrees2(base),
 		}
 		c.Count("2d.TransformSDF.fields", 1)
 		runSubject2(c, s, 12)
 		if own != nil {
-			s2 := &subject2{api: s.api, tag: s.tag + ".ownmodel", sdf: field, ref: *own, params: params, quiet: true}
+			inner := *own
+			ok := baseAgrees2(base)
+			s2 := &subject2{api: s.api, tag: s.tag + ".ownmodel", sdf: field, ref: *own, params: params, quiet: true,
+				baseOK: func(p C2) bool { return ok(g.Scale2(g.Sub2(p, inner.Shift), 1/inner.Scale)) }}
 			runSubject2(c, s2, 8)
 		}
 	})
